@@ -4,7 +4,7 @@ from fractions import Fraction as F
 from scen import *
 from opsprof import *
 
-def contested_cfg(menu, ents, double=False, hold=False):
+def contested_cfg(menu, ents, double=False, hold=False, chord=False):
     """one key per pair of types, bound by a consuming action in both; exclusive types get the same spec on every entity"""
     ids = Ids()
     pairs = list(itertools.combinations(menu, 2))
@@ -27,7 +27,10 @@ def contested_cfg(menu, ents, double=False, hold=False):
             # that the winner has several contributing inputs in one frame and must take all of them
             # hold: every action carries a Hold condition with a very long hold time, so that the winner is Ongoing, not
             # Fired: it wins the contested key all the same
-            return spec([action(ids, a, [bind(ids, key(k), [], [])] + ([bind(ids, key(k + len(pairs)), [], [])] if double else []),
+            # chord (two-type menus only): the higher-priority type binds the contested key as Ctrl+key, the lower one the
+            # plain key - consuming the chord hides the key from the plain binding below
+            hi_c = max(menu, key=lambda x: CTX_PRIO[x])
+            return spec([action(ids, a, [bind(ids, key(k, CONTROL if (chord and c == hi_c) else 0), [], [])] + ([bind(ids, key(k + len(pairs)), [], [])] if double else []),
                                 [], ['(c_hold 100/1 false 1/2 false)'] if hold else [])
                          for a, k in acts_of[c]])
         if ctx_shared(c):
@@ -37,8 +40,9 @@ def contested_cfg(menu, ents, double=False, hold=False):
             for e in ents: cfg[(c, e)] = build()
     return cfg, list(range(len(pairs) * (2 if double else 1)))
 
-def history_scenario(rng, menu, ents, ops, double=False, held=False, hold=False):
-    cfg, keys = contested_cfg(menu, ents, double, hold)
+def history_scenario(rng, menu, ents, ops, double=False, held=False, hold=False, chord=False):
+    cfg, keys = contested_cfg(menu, ents, double, hold, chord)
+    if chord: keys = keys + [rng.choice([102, 103])]
     steps = []
     for o in ops:
         steps.append(sop(o))
@@ -84,6 +88,13 @@ def cases(tier, rng):
                 for c in menu:
                     yield (history_scenario(rng, menu, [0, 1], base_ops + [remove(0, c), insert(0, c)]), 'remove-reinsert')
                 yield (history_scenario(rng, menu, [0, 1], base_ops + [REBUILD]), 'rebuild')
+    # a consuming Ctrl+key above a plain key below: the chord wins the key in every insertion / removal / rebuild history
+    for menu in ([0, 3], [1, 2], [4, 7], [5, 6], [0, 1]):
+        for order in itertools.permutations(menu):
+            ops = [spawn(0, [])] + [insert(0, c) for c in order]
+            yield (history_scenario(rng, sorted(menu), [0, 1], ops, chord=True), 'chord-over-plain-key')
+            yield (history_scenario(rng, sorted(menu), [0, 1], ops + [remove(0, order[0]), insert(0, order[0])], chord=True), 'chord-over-plain-key')
+            yield (history_scenario(rng, sorted(menu), [0, 1], ops + [REBUILD], chord=True), 'chord-over-plain-key')
     for menu in ([0, 1, 2], [5, 6, 7], [1, 3, 4, 6], [0, 2, 5, 7], [2, 3, 4]):
         for double in (False, True):
             for sc_ in middle_arrives(rng, sorted(menu), double):
